@@ -52,6 +52,14 @@ theorem batchValidate_mono {o o' : Opts} (h : o.le o') (b : VBatch) (hb : batchV
     or_mono h.bypassCompanyIdentificationMatch h5⟩, h6⟩, h7⟩, or_mono h.unequalAddendaCounts h8⟩,
     or_mono h.customTraceNumbers h9⟩, h10⟩, h11⟩, h12⟩, or2_mono h.customTraceNumbers h.bypassOrigin h13⟩, h14⟩
 
+/-- **IAT batch level** -/
+theorem iatBatchValidate_mono {o o' : Opts} (h : o.le o') (b : VBatch) (hb : iatBatchValidate o b = true) :
+    iatBatchValidate o' b = true := by
+  simp only [iatBatchValidate, Bool.and_eq_true] at hb ⊢
+  obtain ⟨⟨⟨⟨⟨⟨⟨⟨⟨⟨⟨h1, h2⟩, h3⟩, h4⟩, h6⟩, h7⟩, h8⟩, h9⟩, h10⟩, h11⟩, h12⟩, h13⟩ := hb
+  exact ⟨⟨⟨⟨⟨⟨⟨⟨⟨⟨⟨h1, h2⟩, h3⟩, or_mono h.unequalServiceClassCode h4⟩, h6⟩, h7⟩, or_mono h.unequalAddendaCounts h8⟩,
+    or_mono h.customTraceNumbers h9⟩, h10⟩, h11⟩, h12⟩, or2_mono h.customTraceNumbers h.bypassOrigin h13⟩
+
 /-- **file level** -/
 theorem fileValidate_mono {o o' : Opts} (h : o.le o') (f : VFile) (hf : fileValidate o f = true) :
     fileValidate o' f = true := by
